@@ -37,6 +37,8 @@ CONSTANTS Callers,        \* {1}: one thread; {1, 2}: two threads sharing one cl
           Dev_NoRecvTimeout,        \* receive waits for ever on a silent peer
           Dev_ClampedBodyRead,      \* once the headers are parsed the receive size is clamped to the missing Content-Length
                                     \* bytes: surplus that arrives after the header block is never pulled in (no forceEvict)
+          Dev_BackoffClampsAttempt, \* the attempt counter is clamped (min(attempt + 1, 4), "cap the back-off") although it is
+                                    \* also compared with the budget: for budgets >= 5 the loop never gives up
           Dev_IdleBytesKept         \* bytes that arrive on a cached connection stay buffered (connection left in Sync mode)
 
 Idem(m) == m \in {"GET", "HEAD", "PUT", "DELETE", "OPTIONS", "TRACE"}
@@ -229,7 +231,8 @@ GiveUp(c) == LET e == err[c] IN
              \/ (IF Dev_BudgetOffByOne THEN att[c] > bud[c] ELSE att[c] >= bud[c])
 RetryDecision(c) == /\ pc[c] = "decide"
                     /\ IF GiveUp(c) THEN pc' = [pc EXCEPT ![c] = "finish"] /\ UNCHANGED att
-                       ELSE pc' = [pc EXCEPT ![c] = "lease"] /\ att' = [att EXCEPT ![c] = @ + 1]     \* Backoff
+                       ELSE /\ pc' = [pc EXCEPT ![c] = "lease"]                                      \* Backoff
+                            /\ att' = [att EXCEPT ![c] = IF Dev_BackoffClampsAttempt /\ @ + 1 > 4 THEN 4 ELSE @ + 1]
                     /\ UNCHANGED <<ri, meth, pre, bud, unread, foreign, cur, fresh, stp, err, idle, lease, cache, conns, atts, fk, steps, script>>
 
 Result(c) == CASE err[c] = "none" -> "ok" [] err[c] = "Framing" -> "framing" [] err[c] = "NotSent" -> "notsent" [] OTHER -> "other"
